@@ -175,6 +175,12 @@ fn run(ctx: &Ctx) -> Part {
             .fold(Acc::new, |mut acc, &(o, lo, hi)| {
                 let cfg = Cfg { orient: o & 7, refresh: (o >> 3) & 3, bgr: o & 32 != 0, ..*base };
                 let mut lean = Lean::new(&cfg);
+                // for half of the option codes something is drawn first (state carried from drawing calls)
+                if o & 1 == 1 || (o >> 3) & 1 == 1 {
+                    let _ = lean.rig.apply(&Op::Clear { c: 0x0821 });
+                    let _ = lean.rig.apply(&Op::SetPixel { x: 0, y: 0, c: 0x1234 });
+                    lean.rig.ctl.viols.clear();
+                }
                 let lat = lattice(h);
                 let mut one = |acc: &mut Acc, top: u16, bottom: u16| one_slow(ctx, acc, &mut lean, &cfg, h, top, bottom);
                 if lo == hi {
